@@ -38,22 +38,35 @@ func agreeDirect(e *env) error {
 		logged := map[string]bool{}
 		dates := []string{}
 		date := 1
+		// every relation is evaluated under a period (global flags), which all the reports must honour alike
+		pb, pe := 0, 99
+		if t%2 == 1 {
+			pb, pe = 3+e.rng.Intn(4), 6+e.rng.Intn(6)
+		}
 		for d := 0; d < 1+e.rng.Intn(6); d++ {
 			date += 1 + e.rng.Intn(2)
 			ds := fmt.Sprintf("2021/09/%02d", date)
-			dates = append(dates, ds)
+			inPeriod := date >= pb && date <= pe
+			if inPeriod {
+				dates = append(dates, ds)
+			}
 			lg.WriteString(ds + ":\n")
 			for i := e.rng.Intn(6); i > 0; i-- {
 				f := names[1+e.rng.Intn(traceNames)]
 				if e.rng.Intn(2) == 0 {
 					f = names[g.Book[e.rng.Intn(len(g.Book))].Name]
 				}
-				logged[f] = true
+				if inPeriod {
+					logged[f] = true
+				}
 				lg.WriteString(cc.entryLine(f, fmt.Sprint(e.rng.Intn(9)-3)) + "\n")
 			}
 		}
 		x := &cmpCtx{e: e, c: nil, w: &world{names: names, uq: 1, ua: 1}, book: bk.String(), log: lg.String()}
 		md := []string{"--maxdepth", fmt.Sprint(g.N)}
+		if pb > 0 {
+			md = append(md, "-b", fmt.Sprintf("2021/09/%02d", pb), "-e", fmt.Sprintf("2021/09/%02d", pe))
+		}
 		run := func(args ...string) (string, bool) {
 			out := &failWriter{limit: -1}
 			res := runInProc(append(append([]string{}, md...), args...), map[string]fileSrc{"food.yaml": strSrc(x.book), "log.yaml": strSrc(x.log)}, out)
